@@ -320,6 +320,10 @@ func augmentOverlayFile(file *ast.File, overrides map[string]overrideInfo) {
 			file.Decls[i] = nil
 		}
 	}
+	// The blank identifier doesn't name anything that could be overridden:
+	// `var _ = x` in an overlay must not remove blank declarations (and their
+	// initializers) from the original.
+	delete(overrides, "_")
 	if anyChange {
 		finalizeRemovals(file)
 		pruneImports(file)
